@@ -15,7 +15,8 @@ Go ↔ model
   LeaveGroup (the residue of D9: "left_group_on_close modulo D9")
 * API calls: `callBegin`/`callRet`; `FetchMessage` on a reader already marked closed returns io.EOF (after the
   repair in this property's fix: commit, see docs/notes/C09.md) — guard `born` (invoked after the mark).
-Connections of the fetchers and of the coordinator are one counter `conns`.
+`conns` counts the fetchers' connections, `lconns` the coordinator connections of the group loop; a LeaveGroup that is
+rejected or fails is the event `leave m` followed by `coordErr` (the member id is dropped either way: `_ = cg.leaveGroup`).
 -/
 namespace KV.ReaderClose
 
@@ -37,7 +38,8 @@ structure State where
   closed : Bool
   close : Nat           -- 0 not called, 1 called, 2 marked, 3 returned
   fetchers : Nat
-  conns : Nat
+  conns : Nat           -- open connections of the fetchers
+  lconns : Nat          -- open coordinator connections of the group loop (`coordinator()`, `leaveGroup`)
   loop : Nat            -- 1 while the group loop goroutine runs
   member : Option Nat
   gen : Bool
@@ -45,12 +47,12 @@ structure State where
   calls : List Call
 deriving Repr, DecidableEq, Hashable
 
-def State.init (group : Bool) : State := ⟨group, false, 0, 0, 0, if group then 1 else 0, none, false, false, []⟩
+def State.init (group : Bool) : State := ⟨group, false, 0, 0, 0, 0, if group then 1 else 0, none, false, false, []⟩
 
 inductive Event
   | callBegin (c : Nat) (k : Kind) | ctxCancel (c : Nat) | callRet (c : Nat) (r : Res)
   | closeBegin | closeMark | closeMsgs | closeReturn
-  | fetcherStart | fetcherExit | dial | connClose | fetchReq
+  | fetcherStart | fetcherExit | dial | connClose | coordClose | fetchReq
   | coordOpen | join (m : Option Nat) | joinOk (m : Nat) | joinErr | coordErr | sync | offsetFetch
   | genStart | heartbeat (m : Nat) | commit | genEnd | leave (m : Nat) | loopExit
 deriving Repr, DecidableEq
@@ -85,14 +87,15 @@ def step (s : State) : Event → Option State
   | .closeMsgs =>
     if s.close = 2 && s.fetchers = 0 && s.loop = 0 && !s.msgsClosed then some { s with msgsClosed := true } else none
   | .closeReturn =>
-    if s.close = 2 && s.msgsClosed && s.conns = 0 then some { s with close := 3 } else none
+    if s.close = 2 && s.msgsClosed && s.conns = 0 && s.lconns = 0 then some { s with close := 3 } else none
   | .fetcherStart => if !s.closed && (!s.group || s.gen) then some { s with fetchers := s.fetchers + 1 } else none
   | .fetcherExit => if 0 < s.fetchers then some { s with fetchers := s.fetchers - 1 } else none
   | .dial => if 0 < s.fetchers then some { s with conns := s.conns + 1 } else none
   | .connClose => if 0 < s.conns then some { s with conns := s.conns - 1 } else none
+  | .coordClose => if 0 < s.lconns then some { s with lconns := s.lconns - 1 } else none
   | .fetchReq => if 0 < s.fetchers && 0 < s.conns then some s else none
-  | .coordOpen => if s.loop = 1 then some { s with conns := s.conns + 1 } else none
-  | .join m => if s.loop = 1 && !s.gen && 0 < s.conns && (m = none || m = s.member) then some s else none
+  | .coordOpen => if s.loop = 1 then some { s with lconns := s.lconns + 1 } else none
+  | .join m => if s.loop = 1 && !s.gen && 0 < s.lconns && (m = none || m = s.member) then some s else none
   | .joinOk m => if s.loop = 1 && !s.gen then some { s with member := some m } else none
   | .joinErr => if s.loop = 1 && !s.gen then some { s with member := none } else none
   | .coordErr => if s.loop = 1 then some s else none
@@ -102,8 +105,11 @@ def step (s : State) : Event → Option State
   | .heartbeat m => if s.gen && s.member = some m then some s else none
   | .commit => if s.gen then some s else none
   | .genEnd => if s.gen then some { s with gen := false } else none
-  | .leave m => if s.loop = 1 && !s.gen && s.member = some m && 0 < s.conns then some { s with member := none } else none
-  | .loopExit => if s.loop = 1 && s.closed && !s.gen && s.member = none then some { s with loop := 0 } else none
+  | .leave m => if s.loop = 1 && !s.gen && s.member = some m && 0 < s.lconns then some { s with member := none } else none
+  | .loopExit =>
+    -- `run` returns only after `leaveGroup` returned, and `coordinator()` / `nextGeneration` / `leaveGroup` close the
+    -- connections they opened on every path (answered, rejected, failed): no coordinator connection is left
+    if s.loop = 1 && s.closed && !s.gen && s.member = none && s.lconns = 0 then some { s with loop := 0 } else none
 
 def run : State → List Event → Option State
   | s, [] => some s
